@@ -21,11 +21,15 @@ from ai_edge_quantizer.utils import validation_utils  # noqa: E402
 TT = s.TensorType
 
 
+REF_KERNEL = [False]   # which kernel set the harness's own interpreters use (follows the use_reference_kernel argument under test)
+
+
 def capture(mb, sig, sample):
     """contents + details of every named tensor of the signature's main subgraph (own interpreter instance;
     the input is fed the way the library feeds it, quantized inputs included)"""
     it = tfl.Interpreter(model_content=bytes(mb), experimental_preserve_all_tensors=True,
-                         experimental_op_resolver_type=tfl.OpResolverType.BUILTIN_WITHOUT_DEFAULT_DELEGATES)
+                         experimental_op_resolver_type=tfl.OpResolverType.BUILTIN_REF if REF_KERNEL[0]
+                         else tfl.OpResolverType.BUILTIN_WITHOUT_DEFAULT_DELEGATES)
     it.allocate_tensors()
     tiu.invoke_interpreter_signature(it, sample, sig)
     sgi = it.get_signature_runner(sig)._subgraph_index
@@ -70,7 +74,10 @@ def const_names(mb, sgi):
 
 
 def real_compare(ref_mb, tgt_mb, data, metric):
-    r = model_validator.compare_model(ref_mb, tgt_mb, data, metric, validation_utils.get_validation_func(metric))
+    if REF_KERNEL[0]:
+        r = model_validator.compare_model(ref_mb, tgt_mb, data, metric, validation_utils.get_validation_func(metric), use_reference_kernel=True)
+    else:
+        r = model_validator.compare_model(ref_mb, tgt_mb, data, metric, validation_utils.get_validation_func(metric))
     out = {}
     m = pl.read(ref_mb)
     sigs = {sd.signatureKey.decode(): sd.subgraphIndex for sd in (m.signatureDefs or [])}
